@@ -1,13 +1,13 @@
 SPECIFICATION Spec
 CONSTANTS
   Modes = {"btc", "legacy", "compact"}
-  Gaps = {2, 3, 4}
-  ExtraLen = 2
+  Gaps = {2, 3}
+  ExtraLen = 1
   Seed = 1
-  NRand = 200
+  NRand = 40
   KeepHist = FALSE
   KF_PowGrandparentBits = FALSE
-  Sides = {}
+  Sides = {"slow", "fast", "short"}
 INVARIANTS TypeOK ChainPrescribed RetargetOnlyAtGap RetargetBounded RetargetBoundedLegacy RetargetDirection AcceptOnlyEntitled CompactRoundTrip
 VIEW View
 CHECK_DEADLOCK FALSE
